@@ -152,6 +152,7 @@ func classifyJSON(entry string, data []byte) jsonClass {
 type jgen struct {
 	t        *rapid.T
 	allValid bool
+	hostile  bool // transaction hex fields may carry hostile / truncated encodings (sub-check jsonhex)
 }
 
 func q(s string) string { b, _ := json.Marshal(s); return string(b) }
@@ -202,6 +203,9 @@ func (g *jgen) leafValue(k kind) string {
 		if g.allValid && c >= 3 {
 			c = 0
 		}
+		if !g.hostile && c >= 3 && c <= 7 {
+			c = 8
+		}
 		switch {
 		case c < 3:
 			ms, exts := genModels(t)
@@ -242,8 +246,10 @@ func (g *jgen) value(n *node, depth int) string {
 		var parts []string
 		for _, fl := range n.fields {
 			absent := !g.allValid && rapid.IntRange(0, 5).Draw(t, "absent") == 0
-			if fl.n.k == kTxHex && rapid.IntRange(0, 1).Draw(t, "hex_absent") == 0 {
-				absent = true // a non-empty hex short-circuits everything else
+			if fl.n.k == kTxHex {
+				// a non-empty hex short-circuits everything else: mostly absent in the
+				// field-oriented sub-check, always present in the hex-oriented one
+				absent = !g.hostile && rapid.IntRange(0, 3).Draw(t, "hex_absent") != 0
 			}
 			if absent {
 				continue
@@ -270,10 +276,17 @@ func (g *jgen) value(n *node, depth int) string {
 
 const asciiNoise = `{}[]",:0123456789abcdefnulltrue\ -.eE`
 
-func genJSON(t *rapid.T) Raw {
-	entry := rapid.SampledFrom(jsonEntries).Draw(t, "entry")
+// hexEntries are the JSON entry points whose documents embed a whole transaction.
+var hexEntries = []string{"json:Tx", "json:Tx.NodeJSON", "json:Txs.NodeJSON"}
+
+func genJSON(t *rapid.T, hostile bool) Raw {
+	es := jsonEntries
+	if hostile {
+		es = hexEntries
+	}
+	entry := rapid.SampledFrom(es).Draw(t, "entry")
 	op := rapid.SampledFrom([]string{"grammar", "grammar", "grammar", "grammar", "grammar", "grammar", "valid", "valid+truncate", "valid+replace", "grammar+truncate", "toplevel"}).Draw(t, "op")
-	g := &jgen{t: t, allValid: strings.HasPrefix(op, "valid")}
+	g := &jgen{t: t, allValid: strings.HasPrefix(op, "valid"), hostile: hostile}
 	text := g.value(schemaFor[entry], 0)
 	switch op {
 	case "valid+truncate", "grammar+truncate":
@@ -418,21 +431,29 @@ func nodeAt(n *node, target int) *node {
 	return found
 }
 
-func enumJSON(tier string, yield func(Raw)) {
-	hh := hostileHexes()
-	for _, entry := range jsonEntries {
-		sch := schemaFor[entry]
-		base, total := render(sch, -1, "", false)
-		yield(Raw{Entry: entry, Text: base, Note: "all fields valid, hex absent"})
-		for i := 0; i < total; i++ {
-			devs := append([]string{"", "null"}, wrongValues...)
-			if nd := nodeAt(sch, i); nd != nil && nd.k == kTxHex {
-				devs = append(devs, hh...)
-				devs = append(devs, `"`+hex.EncodeToString(ref.Encode(seeds()[0].ms[0], false))+`"`)
+func enumJSON(hostile bool) func(tier string, yield func(Raw)) {
+	return func(tier string, yield func(Raw)) {
+		hh := hostileHexes()
+		for _, entry := range jsonEntries {
+			sch := schemaFor[entry]
+			base, total := render(sch, -1, "", false)
+			if !hostile {
+				yield(Raw{Entry: entry, Text: base, Note: "all fields valid, hex absent"})
 			}
-			for _, dev := range devs {
-				text, _ := render(sch, i, dev, true)
-				yield(Raw{Entry: entry, Text: text, Note: fmt.Sprintf("node %d replaced by %q", i, dev)})
+			for i := 0; i < total; i++ {
+				devs := append([]string{"", "null"}, wrongValues...)
+				if nd := nodeAt(sch, i); nd != nil && nd.k == kTxHex {
+					devs = append(devs, `"`+hex.EncodeToString(ref.Encode(seeds()[0].ms[0], false))+`"`)
+					if hostile {
+						devs = hh
+					}
+				} else if hostile {
+					continue
+				}
+				for _, dev := range devs {
+					text, _ := render(sch, i, dev, true)
+					yield(Raw{Entry: entry, Text: text, Note: fmt.Sprintf("node %d replaced by %q", i, dev)})
+				}
 			}
 		}
 	}
@@ -440,10 +461,23 @@ func enumJSON(tier string, yield func(Raw)) {
 
 func TestJSON(t *testing.T) {
 	pbt.Run(t, pbt.Sub[Raw]{
-		Name: "json", Quick: 100000, Thorough: 1500000, Precommit: true,
+		Name: "json", Quick: 80000, Thorough: 1200000,
 		Check:    checkRaw,
-		Gen:      genJSON,
-		EnumDesc: "for each of the 9 JSON entry points: the all-valid document and every document in which exactly one schema node (field, nested object, list, list element) is absent / null / one of 13 wrong-typed values; the hex field additionally takes every hostile transaction prefix of seed 0",
-		Enum:     enumJSON,
+		Gen:      func(t *rapid.T) Raw { return genJSON(t, false) },
+		EnumDesc: "for each of the 9 JSON entry points: the all-valid document and every document in which exactly one schema node (field, nested object, list, list element) is absent / null / one of 13 wrong-typed values",
+		Enum:     enumJSON(false),
+	})
+}
+
+// TestJSONHex is the part of the JSON search in which the embedded transaction
+// hex is hostile (lying length/count fields, truncations): on an unrepaired
+// tree such a document can kill the process, hence Precommit.
+func TestJSONHex(t *testing.T) {
+	pbt.Run(t, pbt.Sub[Raw]{
+		Name: "jsonhex", Quick: 20000, Thorough: 300000, Precommit: true,
+		Check:    checkRaw,
+		Gen:      func(t *rapid.T) Raw { return genJSON(t, true) },
+		EnumDesc: "for each JSON entry point with a hex field: that field set to every hostile transaction prefix of seed 0 (every varint site x 9 claims), all other fields valid",
+		Enum:     enumJSON(true),
 	})
 }
